@@ -72,7 +72,7 @@ def fd_any(fdk, kinds):
     return fdk is not None and any(k in kinds for k in fdk)
 
 
-def run(prop, tier, seed, profile, spec, interest, proof_files, n_quick=1500, n_thorough=20000,
+def run(prop, tier, seed, profile, spec, interest, proof_files, n_quick=2200, n_thorough=22000,
         assumptions=(), rule_extra='', extra_cases=None, chart_hook=None, level='proof', post=None, consts=False):
     """interest(mask, fdk, mcode, case) -> None or a short clause name (a violation of THIS property)."""
     t0 = time.time()
@@ -196,6 +196,8 @@ def interest_c02(mask, fdk, mcode, case):
 def interest_c03(mask, fdk, mcode, case):
     if mask & B.PB_REPLAY:
         return 'replaying exited/entered lists of the MacroStep does not give the configuration (C03_trace_truth)'
+    if not sent_order_ok(case):
+        return 'the sent-event list of a micro step is not in the order in which its code sent the events (C03_trace_truth)'
     # the model runs on the recorded answers of the evaluator: when the implementation executes code in another order the
     # model asks a question that was never recorded and stops with ECode -- that is a divergence of the trace, not of the outcome
     oracle_miss = mcode == 'ECode' and ifam.impl_outcome(case) != 'ECode'
@@ -276,6 +278,23 @@ def interest_c08(mask, fdk, mcode, case):
     return None
 
 
+def sent_order_ok(case):
+    """The events a straight-line code block sent are reported in the order in which the block called send()/notify():
+    compared with the TEXT of the block (kinds and names), independently of what the evaluator returns."""
+    import re
+    for c in case['calls']:
+        if c['op'] != 'exec' or not c['sig']['code'] or c.get('result') is None:
+            continue
+        code = c['sig']['code']
+        if re.search(r'^\s*(if|for|while|try|def)\b', code, re.M):
+            continue
+        want = [('I' if m.group(1) == 'send' else 'M', m.group(2)) for m in re.finditer(r"\b(send|notify)\('(\w+)'", code)]
+        got = [(e[0], e[1]) for e in c['result'][1]]
+        if want != got:
+            return False
+    return True
+
+
 def failfast_ok(case):
     """C10_failfast on the implementation's own log: when execute_once raised PropertyStatechartError for property
     statechart L, no code of the MONITORED statechart was executed or evaluated after the last evaluator call of L's
@@ -300,6 +319,8 @@ def interest_c10(mask, fdk, mcode, case):
     impl = ifam.impl_outcome(case)
     if not failfast_ok(case):
         return 'code of the monitored statechart ran after a property statechart had become final (C10_failfast)'
+    if not sent_order_ok(case):
+        return 'the events sent by one code block are not reported in the order in which the block sent them (C10_complete: in the order the things happened)'
     if mask & B.PB_META:
         return 'a listener did not receive exactly the documented meta-events of the returned macro step (C10_complete)'
     if mask & B.INTERLEAVE and not (mask & (B.TRACE | B.SELECTED | B.EVENT | B.LOGS)) and premise_ok(case):
